@@ -79,6 +79,15 @@ func (e *Engine) evalBool(x *Expr, se *SpecEnv) Term {
 	return v.L[0]
 }
 
+// evalTerm: a spec expression of (mathematical) integer sort, e.g. a loop variant.
+func (e *Engine) evalTerm(x *Expr, se *SpecEnv) Term {
+	v := e.evalSpec(x, se)
+	if len(v.L) != 1 || v.L[0].Sort != SInt {
+		panic(unsupported("spec expression %s is not an integer", x))
+	}
+	return v.L[0]
+}
+
 var boolT = types.Typ[types.Bool]
 var intT = types.Typ[types.Int]
 
